@@ -592,6 +592,14 @@ func (ctx Ctx) methodExpr(call *ast.CallExpr) coq.Expr {
 		// untyped)
 		// TODO: handle integer conversions here, checking if call.Fun is an integer
 		//  type; see https://github.com/goose-lang/goose/issues/14
+		if b, ok := ctx.typeOf(call.Fun).Underlying().(*types.Basic); ok &&
+			b.Info()&types.IsNumeric != 0 {
+			if _, modelled := getIntegerType(b); !modelled {
+				// int8(x), uint16(x), float64(x), ...: there is no GooseLang
+				// value of such a type for the operand to become
+				ctx.unsupported(call, "conversion to unsupported type %v", b)
+			}
+		}
 		return ctx.expr(args[0])
 	}
 
